@@ -77,6 +77,15 @@ CHECKS = {
         "sampled at 3 (quick) and exhaustive to 3, sampled at 4 (thorough).",
    technique="TLA+ literal denotation + TLC trace validation of frontend verdicts and compiled output",
    ref="§4 C19"),
+ "C05": dict(
+   text="Heap.tla states the allocator protocol (alloc / realloc / free / noop over a map of live blocks with their sizes; every other call - a block that is not live, a wrong "
+        "old size - is not an action; at normal termination no block is live). The ledger of every ddp_reallocate call of generated programs (ownership role x exit path programs, "
+        "copy matrix, statement skeletons, text histories, structural operator cases; -O0/-O2 quick, all levels thorough), recorded by a link-time --wrap shim, is validated call by "
+        "call by TLC (HeapTrace); the same programs run against the ASan/LSan-built runtime and stdlib, where any sanitizer report is an event the specification has no action for.",
+   note="Executed paths of the generated programs only. Loads/stores of generated code that go through neither libc nor the runtime are invisible to ASan (the object is not "
+        "instrumented). Programs ending in a Laufzeitfehler are exempt from the leak requirement (the runtime exits without unwinding).",
+   technique="TLA+ allocator protocol + TLC trace validation of recorded allocation ledgers + sanitizer runs",
+   ref="§4 C05"),
 }
 PENDING = {}
 
